@@ -207,10 +207,9 @@ func (g *ltGen) decimal(p int, maxInt int, signed bool) float64 {
 	case 0:
 		v = 0
 	case 1:
-		// more precision than the field prints
-		if !g.domain {
-			v += r.float01() / scale
-		}
+		// more precision than the field prints: the value comes back rounded to the field's precision
+		// (and re-encodes to the same bytes)
+		v += r.float01() / scale
 	case 2:
 		v = float64(r.intn(maxInt + 1))
 	case 3, 4:
@@ -229,7 +228,7 @@ func (g *ltGen) decimal(p int, maxInt int, signed bool) float64 {
 		// a negative zero (a value the field's precision can carry: it prints as -0.00 and reads back as
 		// itself), and outside the domain a negative value too small for the field to show
 		v = math.Copysign(0, -1)
-		if !g.domain && r.bool() {
+		if r.bool() {
 			v = -0.4 / scale * r.float01()
 		}
 	}
